@@ -218,6 +218,12 @@ class Lib:
         if isinstance(v, SymList):
             f = v.f
             probe = f(z3.Int('i!probe'))
+            from .core import MaybeNan
+            if isinstance(probe, MaybeNan) or (isinstance(probe, Opaque) and getattr(probe, 'is_nan', False)):
+                # list of floats some of which may be NaN: value array + NaN flag
+                a = Arr((v.n,), lambda ix: MaybeNan.of(f(ix[0])).val, 'float64')
+                a.nan_f = lambda ix: MaybeNan.of(f(ix[0])).isnan
+                return a
             return Arr((v.n,), lambda ix: f(ix[0]), dtype or dt_of_scalar(probe))
         if isinstance(v, (list, tuple)):
             items = list(v)
@@ -628,6 +634,9 @@ class Lib:
             fs = src.f
             return Arr((m,), lambda ix: fs((sel(to_z3(ix[0])),)), src.dtype)
         r = mk(a)
+        if getattr(a, 'nan_f', None) is not None:
+            nf = a.nan_f
+            r.nan_f = lambda ix: nf((sel(to_z3(ix[0])),))
         if a.fields is not None:
             r.fields = {k: mk(v) for k, v in a.fields.items()}
         r.ghost['selection'] = dict(base=a, mask=msnap, sel=sel, inv=inv, m=m,
@@ -729,6 +738,8 @@ class Lib:
         d = ref.dotted + '.' + name
         if d in ('numpy.nan', 'numpy.NaN'):
             return NAN
+        if d in ('numpy.inf', 'numpy.Inf', 'numpy.infty'):
+            return Opaque('inf', sign=1)
         if d == 'os.name':
             return 'posix'      # platform assumption (listed in evidence)
         if d == 'datetime.timezone.utc':
@@ -1900,6 +1911,12 @@ def _np_sum(L, a, axis=None, **kw):
     if isinstance(a, Opaque) and hasattr(a, 'np_sum'):
         return a.np_sum(L.I, axis)
     a = L.as_arr(a)
+    if getattr(a, 'nan_f', None) is not None and a.ndim == 1 and axis in (None, 0, -1):
+        # a sum is NaN exactly when some entry is
+        from .core import MaybeNan
+        i = z3.Int('i!nan')
+        plain = Arr(a.shape, a.f, a.dtype)
+        return MaybeNan(z3.Exists([i], z3.And(0 <= i, i < to_z3(a.shape[0]), to_z3(a.nan_f((i,))))), to_real(sum_term(L, plain)))
     if a.ndim == 0:
         return a.f(())
     if axis is None:
@@ -2107,10 +2124,38 @@ def _errstate(L, **kw):
 
 @model('numpy.isnan')
 def _isnan(L, x):
-    # model R: no NaN
+    """model R has no NaN among the reals; NaN exists only as the token numpy.nan and as MaybeNan values / arrays with a
+    NaN flag (`nan_f`), which the library produces on purpose for undefined statistics"""
+    from .core import MaybeNan
     if isinstance(x, Arr):
+        nf = getattr(x, 'nan_f', None)
+        if nf is not None:
+            return Arr(x.shape, lambda ix: nf(ix), 'bool')
         return L.lift1(lambda e: False, x, 'bool')
+    if isinstance(x, MaybeNan):
+        return x.isnan
+    if isinstance(x, Opaque) and getattr(x, 'is_nan', False):
+        return True
     return False
+
+
+@model('numpy.nan_to_num')
+def _nan_to_num(L, x, copy=True, nan=0.0, **kw):
+    """NaN entries become `nan` (default 0.0); model R has no infinities to replace"""
+    from .core import MaybeNan
+    if kw:
+        raise Unsupported('nan_to_num options')
+    if isinstance(x, Arr):
+        nf = getattr(x, 'nan_f', None)
+        if nf is None:
+            return x.snapshot()
+        f = x.f
+        return Arr(x.shape, lambda ix: ite(to_z3(nf(ix)), coerce_elem(nan, 'float64'), f(ix)), 'float64')
+    if isinstance(x, MaybeNan):
+        return z3.If(x.isnan, to_real(nan), x.val)
+    if isinstance(x, Opaque) and getattr(x, 'is_nan', False):
+        return nan
+    return x
 
 
 @model('numpy.min', 'numpy.amin')
